@@ -103,7 +103,7 @@ def ob_eligibility(report):
         act = MD.map_has_initial(Sym('conns'), pid)
         pend = MD.map_has_initial(Sym('pending_dials'), pid)
         hasb = MD.map_has_initial(Sym('backoff'), pid)
-        bo = z3.Int(f'backoff[{pid}].{bf.index("backoff")}')
+        bo = z3.Int(f'backoff[{pid}]' + _bo_suffix('backoff'))
         spec = z3.And(aff == HIGH, pid != own, z3.Not(empty), z3.Not(act), z3.Not(pend), z3.Or(z3.Not(hasb), now > bo))
         code = z3.Or([z3.And(q.pc + [ret]) for q, ret in outs if isinstance(ret, z3.BoolRef)] or [z3.BoolVal(False)])
         if any(not isinstance(ret, z3.BoolRef) for _, ret in outs):
@@ -252,7 +252,7 @@ def ob_dial_loop(report):
                 addrs = f'{info.name}.{pf.index("address")}'
                 alen = z3.BitVec(f'len({addrs})', 64)
                 hasb = MD.map_has_initial(Sym('backoff'), pid)
-                att = z3.BitVec(f'backoff[{pid}].{bf.index("attempts")}', 64)
+                att = z3.BitVec(f'backoff[{pid}]' + _bo_suffix('attempts'), 64)
                 want_idx = z3.URem(z3.If(hasb, att, z3.BitVecVal(0, 64)), alen)
                 idx = pk[0].args[1]
                 if vname(pk[0].args[0]) != addrs or not isinstance(idx, z3.ExprRef):
@@ -433,7 +433,7 @@ def ob_retain(report):
                 seen['inflight'] += 1
         for r in holder.get('side', []):
             if r.tag in ('panic', 'diverge'):
-                if not implied(ex2, r.pc, z3.And(rd == 1, terr == CLOSED)) and not implied(ex2, r.pc, z3.Not(z3.ULT(z3.BitVec(f'backoff[{pid}].{bf.index("attempts")}', 64), z3.BitVecVal(2**64 - 1, 64)))):
+                if not implied(ex2, r.pc, z3.And(rd == 1, terr == CLOSED)) and not implied(ex2, r.pc, z3.Not(z3.ULT(z3.BitVec(f'backoff[{pid}]' + _bo_suffix('attempts'), 64), z3.BitVecVal(2**64 - 1, 64)))):
                     qv, m, _ = solve(r.pc)
                     return violation(ob, [ex], f'retain closure can panic outside the documented `Closed` case: {r.path.tags}', 'retain-panic', path_summary(r), len(outs))
         if not all(seen.values()):
@@ -447,6 +447,18 @@ def ob_retain(report):
                     'attempts': '< 2^32-1 for the formula'}, body)
 
 
+def _bo_suffix(role):
+    """name suffix of a DialBackoffState role (`attempts`, `backoff`) inside a stored state: `.i`, or `.i.j` when the value sits in a private newtype"""
+    return ''.join(f'.{i}' for _, i in role_path(CM, 'DialBackoffState', role))
+
+
+def _bo_project(ex, st, role, ty):
+    v = st
+    for _, i in role_path(CM, 'DialBackoffState', role):
+        v = ex.project(v, ('field', i, ''))
+    return e2.peel(v)
+
+
 def _backoff_state_after(ex, q, pid, bf):
     """(attempts', backoff', attempts_old, fresh?) of the peer's DialBackoffState after the closure"""
     ia, ib = bf.index('attempts'), bf.index('backoff')
@@ -457,13 +469,13 @@ def _backoff_state_after(ex, q, pid, bf):
         cells = [e for e in q.events if e.kind == 'entry-cell' and e.name == 'backoff']
         if cells:
             st = ex.deref(q, cells[-1].args[1])
-        a, b = ex.project(st, ('field', ia, 'usize')), ex.project(st, ('field', ib, 'std::time::Instant'))
+        a, b = _bo_project(ex, st, 'attempts', 'usize'), _bo_project(ex, st, 'backoff', 'std::time::Instant')
         return a, b, None, True
     # updated in place through entry.get_mut(): the entry-val cell
     for key, v in q.mem.items():
         if key[0] == 'H' and str(key[1]).startswith('entry-val') and isinstance(v, Sym) and v.name.startswith('backoff['):
-            a, b = ex.project(v, ('field', ia, 'usize')), ex.project(v, ('field', ib, 'std::time::Instant'))
-            old = z3.BitVec(f'{v.name}.{ia}', 64)
+            a, b = _bo_project(ex, v, 'attempts', 'usize'), _bo_project(ex, v, 'backoff', 'std::time::Instant')
+            old = z3.BitVec(f'{v.name}' + _bo_suffix('attempts'), 64)
             if v.ov:
                 return a, b, old, False
     return None
